@@ -105,10 +105,10 @@ theorem getslice2D_refines {h : Heap} {v : View2D} (w : v.WF (shape h))
       f.toNested h' = (PyList.pick (v.toNested h) ys).map (fun row => PyList.pick row xs) ∧
       f.lenX = xs.length ∧ f.lenY = ys.length ∧ f.buf = h.length := by
   unfold getslice2D extract2D at hr
-  cases hsx : extractSliceIndices v.lenX (.slice ax bx cx) 0 with
+  cases hsx : extractSliceIndices v.lenX (.slice ax bx cx) 0 0 with
   | error e => simp [hsx] at hr
   | ok sx =>
-    cases hsy : extractSliceIndices v.lenY (.slice ay by' cy) 0 with
+    cases hsy : extractSliceIndices v.lenY (.slice ay by' cy) 0 0 with
     | error e => simp [hsx, hsy] at hr
     | ok sy =>
       simp only [hsx, hsy] at hr
